@@ -1380,6 +1380,15 @@ def correspondence(ctx):
             if good:
                 ok, used = True, name
                 break
+        if not ok and mF[0] == "ok" and mQ[0] == "ok" and mF[1] == mQ[1] and len(mF[2]) >= len(y) and len(mQ[2]) >= len(y):
+            # ill-conditioned evaluation: the model's own float evaluation deviates from its exact evaluation by e
+            # (same branch); the implementation is another float evaluation of the same formulas and is granted the
+            # same order of deviation from the exact value
+            vF, vQ = A(mF[2][:len(y)]), A(mQ[2][:len(y)])
+            e = float(np.max(np.abs(vF - vQ)))
+            if e > 0 and float(np.max(np.abs(y - vQ))) <= tol + 4.0 * e and e <= 1e-6 * scale:
+                ok, used = True, "Q"
+                ctx.extra["illconditioned_envelope"] = ctx.extra.get("illconditioned_envelope", 0) + 1
         if mQ[0] == "ok":
             ctx.branch(fn, mQ[1])
         if mF[0] == "ok" and mQ[0] == "ok" and mF[1] != mQ[1]:
